@@ -52,4 +52,21 @@ def quiet (ops : List SkOp) : List SkOp :=
   let r := ops.foldl quietStep ([], [])
   r.1.reverse.foldl (fun out blk => out ++ (blk.1 :: blk.2)) r.2
 
+/-- the lighter view used for the protocol-level functions themselves (`readEvents`, `AddWith`, `Remove`,
+`Close`, …): helper calls and table accesses are dropped, and so is a conditional with nothing left inside (a
+debug print, a bookkeeping-only branch); everything else — locks, sends, closes, syscalls, protocol calls,
+every conditional that contains one of them or a return, and WHAT is returned — stays -/
+def liteStep (acc : List (SkOp × List SkOp) × List SkOp) (o : SkOp) : List (SkOp × List SkOp) × List SkOp :=
+  if o.kind == "ifBegin" then ((o, []) :: acc.1, acc.2)
+  else if o.kind == "ifEnd" then
+    match acc.1 with
+    | [] => quietEmit [o] acc
+    | (b, body) :: st => if body.isEmpty then (st, acc.2) else quietEmit (b :: body ++ [o]) (st, acc.2)
+  else if o.silent then acc
+  else quietEmit [o] acc
+
+def lite (ops : List SkOp) : List SkOp :=
+  let r := ops.foldl liteStep ([], [])
+  r.1.reverse.foldl (fun out blk => out ++ (blk.1 :: blk.2)) r.2
+
 end Skel
